@@ -80,6 +80,9 @@ Fixpoint group_ctxs (fuel : nat) (ns envns : list str) (g : group) : list (group
 Definition cmd_group_ctxs (c : command) : list (group * list str * list str) :=
   let g := cmd_group c in group_ctxs (group_depth g) [] [] g.
 
+(* provenance of the rows WriteHelp emits, logged at the place the row text is appended *)
+Inductive hrow := HOpt (fid : nat) | HArg (fid : nat) | HCmd (name : str).
+
 Section Help.
   Variable cfg : pconfig.
   Variable root : command.
@@ -190,7 +193,7 @@ Section Help.
     else [].
 
   (* ---- WriteHelp *)
-  Definition write_help (r : rt) : res str :=
+  Definition write_help_rows (r : rt) : res (str * list hrow) :=
     let chain := active_chain (cmd_depth root) (rt_active r) root [] in
     let a0 := {| al_maxlong := O; al_hasshort := false; al_hasvalname := false; al_indent := false |} in
     let a := fold_left (fun a pc => align_cmd a (snd pc) (is_root_path (fst pc))) chain a0 in
@@ -211,7 +214,7 @@ Section Help.
            end)
         else [] in
     (* option and argument blocks, command by command; the indent flag is sticky *)
-    (fix cmds (l : list (list nat * command)) (a : align) (acc : str) : res str :=
+    (fix cmds (l : list (list nat * command)) (a : align) (acc : str) (rows : list hrow) : res (str * list hrow) :=
        match l with
        | [] =>
          let sc := sorted_visible_cmds innermost in
@@ -232,28 +235,28 @@ Section Help.
                                   | als => s2l " (aliases: " ++ join als (s2l ", ") ++ s2l ")"
                                   end)
                                else []) ++ [10]) sc)
-             end)
+             end, rows ++ map (fun c => HCmd (c_name (cmd_info c))) sc)
        | (p, c) :: rest =>
          let is_root := is_root_path p in
          (* groups *)
-         ' (a1, acc1, _) <-
-           (fix groups (gs : list (group * list str * list str)) (a : align) (acc : str) (printcmd own : bool)
-              : res (align * str * bool) :=
+         ' (a1, acc1, _, rows1) <-
+           (fix groups (gs : list (group * list str * list str)) (a : align) (acc : str) (printcmd own : bool) (rows : list hrow)
+              : res (align * str * bool * list hrow) :=
               match gs with
-              | [] => Ok (a, acc, printcmd)
+              | [] => Ok (a, acc, printcmd, rows)
               | (g, ns, envns) :: grest =>
                 (* [own]: g is the command's own group (first in eachGroup order); its header is
                    omitted exactly when the command is the innermost active one (cmd.Group == grp) *)
                 let no_header := own && match rest with [] => true | _ => false end in
-                if g_hidden (grp_info g) || (g_builtin_help (grp_info g) && negb is_root) then groups grest a acc printcmd false
+                if g_hidden (grp_info g) || (g_builtin_help (grp_info g) && negb is_root) then groups grest a acc printcmd false rows
                 else
-                  ' (a', acc', printcmd', _) <-
-                    (fix opts (os : list opt) (a : align) (acc : str) (printcmd first : bool)
-                       : res (align * str * bool * bool) :=
+                  ' (a', acc', printcmd', _, rows') <-
+                    (fix opts (os : list opt) (a : align) (acc : str) (printcmd first : bool) (rows : list hrow)
+                       : res (align * str * bool * bool * list hrow) :=
                        match os with
-                       | [] => Ok (a, acc, printcmd, first)
+                       | [] => Ok (a, acc, printcmd, first, rows)
                        | o :: orest =>
-                         if negb (opt_show_in_help o) then opts orest a acc printcmd first
+                         if negb (opt_show_in_help o) then opts orest a acc printcmd first rows
                          else
                            let '(a, acc) :=
                                if printcmd then
@@ -266,34 +269,55 @@ Section Help.
                                  (acc ++ [10] ++ (if al_indent a then s2l "    " else []) ++ g_short (grp_info g) ++ s2l ":" ++ [10], false)
                                else (acc, first) in
                            row <- help_option r o ns envns g a ;;
-                           opts orest a (acc ++ row) false first
-                       end) (grp_opts g) a acc printcmd true ;;
-                  groups grest a' acc' printcmd' false
-              end) (cmd_group_ctxs c) a acc (negb is_root) true ;;
+                           opts orest a (acc ++ row) false first (rows ++ [HOpt (o_fid o)])
+                       end) (grp_opts g) a acc printcmd true rows ;;
+                  groups grest a' acc' printcmd' false rows'
+              end) (cmd_group_ctxs c) a acc (negb is_root) true rows ;;
          (* described positional arguments *)
          let dargs := filter (fun ar : arg => nonempty (a_desc ar)) (cmd_args c) in
-         ' acc2 <-
+         ' (acc2, rows2) <-
            (match dargs with
-            | [] => Ok acc1
+            | [] => Ok (acc1, rows1)
             | _ =>
               let head := if is_root then [10] ++ s2l "Arguments:" ++ [10]
                           else [10] ++ s2l "[" ++ c_name (cmd_info c) ++ s2l " command arguments]" ++ [10] in
               let dstart := (description_start a1 + 2)%nat in
-              (fix rows (l : list arg) (acc : str) : res str :=
+              (fix argrows (l : list arg) (acc : str) (rows : list hrow) : res (str * list hrow) :=
                  match l with
-                 | [] => Ok acc
+                 | [] => Ok (acc, rows)
                  | ar :: lrest =>
                    let argprefix := s2l "  " ++ a_name ar ++ s2l ":" in
                    match repeat_space (Z.of_nat dstart - Z.of_nat (rune_count argprefix)) with
                    | None => Panic (s2l "strings: negative Repeat count")
                    | Some pad =>
-                     rows lrest (acc ++ argprefix ++ pad ++
-                                 wrap_text (a_desc ar) (cols - 1 - Z.of_nat dstart) (spaces dstart) ++ [10])
+                     argrows lrest (acc ++ argprefix ++ pad ++
+                                    wrap_text (a_desc ar) (cols - 1 - Z.of_nat dstart) (spaces dstart) ++ [10])
+                             (rows ++ [HArg (a_fid ar)])
                    end
-                 end) dargs (acc1 ++ head)
+                 end) dargs (acc1 ++ head) rows1
             end) ;;
-         cmds rest a1 acc2
-       end) chain a usage.
+         cmds rest a1 acc2 rows2
+       end) chain a usage [].
+
+  Definition write_help (r : rt) : res str := bind (write_help_rows r) (fun tr => Ok (fst tr)).
+
+  (* independent description of what must be listed: every displayable option of every
+     non-hidden group along the active chain (the built-in help group only at the top
+     level), every described positional argument, every non-hidden sub-command of the
+     innermost active command *)
+  Definition visible_rows_cmd (pc : list nat * command) : list hrow :=
+    let '(p, c) := pc in
+    flat_map (fun gc : group * list str * list str =>
+                let g := fst (fst gc) in
+                if g_hidden (grp_info g) || (g_builtin_help (grp_info g) && negb (is_root_path p)) then []
+                else map (fun o => HOpt (o_fid o)) (filter opt_show_in_help (grp_opts g)))
+             (cmd_group_ctxs c)
+    ++ map (fun ar : arg => HArg (a_fid ar)) (filter (fun ar : arg => nonempty (a_desc ar)) (cmd_args c)).
+
+  Definition help_visible_rows (r : rt) : list hrow :=
+    let chain := active_chain (cmd_depth root) (rt_active r) root [] in
+    let innermost := match rev chain with (_, c) :: _ => c | [] => root end in
+    flat_map visible_rows_cmd chain ++ map (fun c => HCmd (c_name (cmd_info c))) (sorted_visible_cmds innermost).
 End Help.
 
 (* ------------------------------------------------------------------ man page *)
